@@ -92,6 +92,14 @@ class {C1} {{
     }})
 }}
 ''', ['1!+2;', '1+2;', '1!;', 'x=1!', 'x=-1', 'x=1', '1!+', '']),
+    # an expression long enough for anything that abbreviates messages to show
+    ('''start = {R1} << ";"
+{R1} = {R2} | {R3} | {C1} | "select" | "insert" | "update" | "delete" | "create table" | "drop table" | "alter table" | "create index" | "drop index" | "begin" | "commit" | "rollback" | "savepoint" | "release" | "vacuum" | "analyze"
+{R2} = "explain"
+{R3} = "pragma"
+class {C1} {{ {f1}: "attach"; {f2}: /[a-z]+/ }}
+ignore / +/
+''', ['42;', '', 'select;', 'attach db;', 'attach 1', 'explain']),
     # a parameter that is called with arguments; fields and let variables next to it
     ('''start = {T1}({T2}, /[a-z]/) | {C1}
 {T1}({p1}, {p2}) = [{p1}({p2}), {p1}("!")?]
@@ -160,6 +168,18 @@ def assigned_in_generated_functions(source):
         if isinstance(fn, ast.FunctionDef) and fn.name.startswith(('_try_', '_function_', '_parse_')):
             for n in ast.walk(fn):
                 if isinstance(n, ast.Name) and isinstance(n.ctx, ast.Store):
+                    out.add(n.id)
+    return out
+
+
+def builtins_read_in_generated_functions(source):
+    """builtins that the code generated for rules reads by bare name: a field, parameter or let variable of that name is a
+    local of the same function"""
+    out = set()
+    for fn in ast.walk(ast.parse(source)):
+        if isinstance(fn, ast.FunctionDef) and fn.name.startswith(('_try_', '_function_')):
+            for n in ast.walk(fn):
+                if isinstance(n, ast.Name) and isinstance(n.ctx, ast.Load) and hasattr(builtins, n.id):
                     out.add(n.id)
     return out
 
@@ -241,7 +261,17 @@ def outcome(mod, text, inverse, names=None):
         return ('V', show(raw, inverse), protocol(raw, inverse))
     if r[0] == 'P':
         return ('P', show(raw.partial_result, inverse), r[2])
+    if r[0] == 'E' and MESSAGES[0]:
+        # the text of the error with the new names mapped back (only for renamings into words that occur nowhere else)
+        msg = str(raw)
+        for new, old in inverse.items():
+            msg = re.sub(r'(?<![A-Za-z0-9_])' + re.escape(new) + r'(?![A-Za-z0-9_])', old, msg)
+        return r + (msg,)
     return r
+
+
+MESSAGES = [False]
+MESSAGE_SAFE = {'snake_case_name', 'CamelCase'}
 
 
 def run(tier, seed, lean):
@@ -260,6 +290,9 @@ def run(tier, seed, lean):
         base_names = {s: NEUTRAL[s] for s in slots}
         base_mod, _ = compile_parts(instantiate(template, base_names), include_source=True)
         base = [outcome(base_mod, t, {}, base_names) for t in inputs]
+        MESSAGES[0] = True
+        base_msgs = [outcome(base_mod, t, {}, base_names) for t in inputs]
+        MESSAGES[0] = False
         if len({b[0] for b in base}) >= 2:
             nontrivial += 1
         ids = emitted_identifiers(base_mod._source_code)
@@ -273,7 +306,7 @@ def run(tier, seed, lean):
         runtime_locals = {n for n in ids if re.fullmatch(r'[a-z][a-z_]*', n)} - set(base_names.values())
         stripped = set()
         for n in ids:
-            m = re.fullmatch(r'_(?:try|parse|raise_error|matcher|function)_?(.+)', n)
+            m = re.fullmatch(r'_(?:try|parse|raise_error|matcher|function|inherited|super)_?(.+)', n)
             if m and not m.group(1).startswith('_') and not m.group(1).isdigit():
                 stripped.add(m.group(1))
         pools = {
@@ -295,15 +328,17 @@ def run(tier, seed, lean):
             if pool_name == 'builtin read by the runtime':
                 # a builtin that the runtime reads and that no recorded finding lists is either harmless or new: never sampled away
                 always = always | {n for n in cands if not any(f'runtime-builtin:{k}:{n}' in LISTED for k in 'RCTfpv')}
+            local_builtins = builtins_read_in_generated_functions(base_mod._source_code) if pool_name == 'builtin read by the runtime' else set()
             if tier == 'quick' and len(cands) > 14:
-                cands = sorted(set(rng.sample(cands, 14)) | (set(cands) & always))
+                cands = sorted(set(rng.sample(cands, 14)) | (set(cands) & always) | (set(cands) & local_builtins))
             for name in cands:
                 for slot in slots:
                     if name in base_names.values():
                         continue
                     if name in DESC_KEYWORDS and not (name == 'ignored' and slot[0] in 'Cf'):
                         continue      # words of the description language ('ignored' can still name a class or a field)
-                    if tier == 'quick' and name not in always and pool_name != 'generated function name without its prefix' and rng.random() < 0.45:
+                    unlisted_local = name in local_builtins and slot[0] in 'fpv' and f'runtime-builtin:{slot[0]}:{name}' not in LISTED
+                    if tier == 'quick' and name not in always and not unlisted_local and pool_name != 'generated function name without its prefix' and rng.random() < 0.45:
                         continue
                     names = dict(base_names)
                     names[slot] = name
@@ -320,6 +355,16 @@ def run(tier, seed, lean):
                     try:
                         mod, _ = compile_parts(instantiate(template, names))
                         got = [outcome(mod, t, inverse, names) for t in inputs]
+                        if name in MESSAGE_SAFE and got == base:
+                            MESSAGES[0] = True
+                            gm = [outcome(mod, t, inverse, names) for t in inputs]
+                            MESSAGES[0] = False
+                            if gm != base_msgs:
+                                k = next(i for i in range(len(gm)) if gm[i] != base_msgs[i])
+                                violations.append({'key': f'{fi}|{slot}|{name}|message', 'sig': f'message|{slot[0]}', 'kind': 'spec', 'family': fi, 'slot': slot, 'name': name,
+                                                   'finding_class': 'none',
+                                                   'what': f'renaming {base_names[slot]!r} to {name!r} changes the text of the error on {inputs[k]!r} in more than the name: '
+                                                           f'{str(gm[k][-1])[-160:]!r} instead of {str(base_msgs[k][-1])[-160:]!r}'})
                     except Exception as exc:      # noqa: BLE001
                         got = [('X-compile', type(exc).__name__)]
                     if got != base:
